@@ -146,6 +146,10 @@ def run(ctx):
     ctx.attempt(r114, ctx, rep)
     rep.rule('R11.6', 'the sort is the same function of its input for every buffer size: exhaustion test, run / merge agreement and stable merge (C05 R5.1-R5.3 imported)')
     ctx.attempt(r116, ctx, rep)
+    from .common import check_raw_row_equalities as _rawreq
+    rep.rule('R11.8', 'rows of two inputs are brought to one sequence type before they are compared with ==: presorted=True hands the merge the rows as the sources deliver them, the sorted path hands it tuples')
+    ctx.attempt(_rawreq, ctx, rep, 'R11.8', ctx.functions(['petl.transform.setops', 'petl.transform.joins', 'petl.transform.dedup',
+                                                           'petl.transform.reductions']))
     rep.rule('R11.7', 'rows that went through a spilled sort are copies (pickle): no operator compares a cell with a caller-supplied value by identity (C12 R12.11 imported)')
     ctx.attempt(r117, ctx, rep)
 
